@@ -45,6 +45,10 @@ type Contract struct {
 	File       string
 	Shared     string // name of the shared contract this was instantiated from
 	GhostSets  []*GhostSet // ghost variables updated when the function returns
+	YieldsArgs []*CExpr    // "yields S(e1, e2)": the subjects of the stream the function/closure produces
+	Subjects   []string    // streams: names of the subjects (bound to the producer's YieldsArgs)
+	Records    []*GhostSet // streams: ghost variables updated at every yield (mirrored at the consumer's next/range)
+	Stops      string      // streams: ghost Bool that becomes !ret after every yield
 	RetProto   string // the protocol the returned function value must obey (closures implementing a factory protocol)
 	Implements string // closures: the protocol this function literal implements
 	ImplInst   string // type instance for $T in that protocol
@@ -126,7 +130,7 @@ var clauseKW = map[string]bool{
 	"requires": true, "ensures": true, "invariant": true, "modifies": true, "decreases": true,
 	"helper": true, "inline": true, "pure": true, "nowf": true, "use": true, "protocol": true,
 	"yields": true, "param": true, "contract": true, "applies": true, "opaque": true, "entry": true, "spec": true,
-	"terminal": true, "allocates": true, "pred": true, "trigger": true, "assumed": true, "partial": true, "stream": true, "resumes": true, "refines": true, "field": true, "implements": true, "tag": true, "ghostset": true, "methodvalue": true, "logic": true, "axiom": true, "nilrecv": true, "verify": true,
+	"terminal": true, "allocates": true, "pred": true, "trigger": true, "assumed": true, "partial": true, "stream": true, "resumes": true, "refines": true, "field": true, "implements": true, "tag": true, "ghostset": true, "records": true, "stops": true, "subject": true, "methodvalue": true, "logic": true, "axiom": true, "nilrecv": true, "verify": true,
 }
 
 var labelRe = regexp.MustCompile(`^([A-Za-z_][\w']*)\s*(\[[A-Za-z0-9, ]*\])?\s*:`)
@@ -292,6 +296,33 @@ func (cs *ContractSet) ParseContractLines(file string, lines []string, poss []st
 					continue
 				}
 				cur.GhostSets = append(cur.GhostSets, &GhostSet{Var: strings.TrimSpace(parts[0]), Text: strings.TrimSpace(parts[1]), Expr: e})
+			}
+		case "records":
+			// records G := expr   (streams)
+			if cur != nil {
+				parts := strings.SplitN(it.rest, ":=", 2)
+				if len(parts) != 2 {
+					cs.Errors = append(cs.Errors, fmt.Sprintf("%s: bad records %q", it.pos, it.rest))
+					continue
+				}
+				e, err := ParseCExpr(strings.TrimSpace(parts[1]))
+				if err != nil {
+					cs.Errors = append(cs.Errors, fmt.Sprintf("%s: %v", it.pos, err))
+					continue
+				}
+				cur.Records = append(cur.Records, &GhostSet{Var: strings.TrimSpace(parts[0]), Text: strings.TrimSpace(parts[1]), Expr: e})
+			}
+		case "stops":
+			if cur != nil {
+				cur.Stops = strings.TrimSpace(it.rest)
+			}
+		case "subject":
+			if cur != nil {
+				for _, f := range strings.Split(it.rest, ",") {
+					if f = strings.TrimSpace(f); f != "" {
+						cur.Subjects = append(cur.Subjects, f)
+					}
+				}
 			}
 		case "implements":
 			// implements protocol [instance]
@@ -460,7 +491,20 @@ func (cs *ContractSet) ParseContractLines(file string, lines []string, poss []st
 			}
 		case "yields":
 			if cur != nil {
-				cur.Yields = strings.TrimSpace(it.rest)
+				// yields S   or   yields S(e1, e2)
+				r := strings.TrimSpace(it.rest)
+				if i := strings.Index(r, "("); i > 0 && strings.HasSuffix(r, ")") {
+					for _, m := range splitTop(r[i+1 : len(r)-1]) {
+						e, err := ParseCExpr(strings.TrimSpace(m))
+						if err != nil {
+							cs.Errors = append(cs.Errors, fmt.Sprintf("%s: %v", it.pos, err))
+							continue
+						}
+						cur.YieldsArgs = append(cur.YieldsArgs, e)
+					}
+					r = strings.TrimSpace(r[:i])
+				}
+				cur.Yields = r
 			}
 		case "param":
 			// param rootIter follows rootStream
